@@ -324,6 +324,29 @@ func drawText(t *rapid.T) TextCase {
 	return newTextCase(e.Name, in, shaped, m.ops)
 }
 
+// drawTextTxn is drawText restricted to the JSON forms of transactions and blocks, whose decoded values go on to
+// the validation entry points (validateDecoded): holes in the structure (null / missing / emptied members) are what
+// produces nil interfaces and zero sub-structures that no binary decoder can produce.
+func drawTextTxn(t *rapid.T) TextCase {
+	allTextEntries()
+	names := []string{"json:types.V2Transaction", "json:types.V2Transaction", "json:types.Transaction", "json:types.Block", "json:types.V2BlockData"}
+	e := textIndex[names[uniform(t, len(names))]]
+	if e == nil {
+		panic("harness: transaction / block JSON entries are missing from the text table")
+	}
+	seed := e.Seed(t)
+	m := &mut{t: t}
+	in, shaped := m.mutateJSON(seed)
+	return newTextCase(e.Name, in, shaped, m.ops)
+}
+
+func checkTextTxn(c TextCase) error { return checkTextAs("TestTextTxn", c) }
+
+// TestTextTxn: hostile JSON for transactions and blocks, decoded and then validated.
+func TestTextTxn(t *testing.T)        { stats.Prop(t, drawTextTxn, checkTextTxn) }
+func TestReplayTextTxn(t *testing.T)  { stats.Replay(t, "TestTextTxn", checkTextTxn) }
+func TestRegressTextTxn(t *testing.T) { stats.Regress(t, "TestTextTxn", checkTextTxn) }
+
 func checkText(c TextCase) error { return checkTextAs("TestText", c) }
 
 func checkTextAs(test string, c TextCase) error {
@@ -372,6 +395,14 @@ func checkTextAs(test string, c TextCase) error {
 		} else if r2.Panic != nil {
 			return stats.Failf("C10/remarshal/"+e.Name, "%s: accepted, but serialising the produced value again panics: %v\n%s", what, r2.Panic, r2.Stack)
 		}
+		// a decodable transaction or block is what a node validates next: every validation entry point has to
+		// return (an error, normally) for whatever the text decoder let through
+		if ran, r3 := validateDecoded(test, val, len(in)); ran {
+			labels = append(labels, "validated-after-decode")
+			if r3.Panic != nil {
+				return stats.Failf("C10/validate-decoded/"+e.Name, "%s: decoded without error, but validating the decoded value panics: %v\n%s", what, r3.Panic, r3.Stack)
+			}
+		}
 	} else {
 		labels = append(labels, "rejected")
 	}
@@ -411,3 +442,53 @@ func TestReplayText(t *testing.T) { stats.Replay(t, "TestText", checkText) }
 
 // TestRegressText runs the committed regression inputs (replays/C10/regress-*.json).
 func TestRegressText(t *testing.T) { stats.Regress(t, "TestText", checkText) }
+
+// decodedState is a plain state in which v1 and v2 transactions are both allowed (height 5 of a network whose v2
+// window is open), for validating values that came out of a text decoder.
+func decodedState() consensus.State {
+	n := &consensus.Network{InitialTarget: types.BlockID{0xFF}, BlockInterval: 600e9}
+	n.HardforkV2.AllowHeight, n.HardforkV2.RequireHeight, n.HardforkV2.FinalCutHeight = 2, 1000, 2000
+	n.HardforkASIC.NonceFactor = 1
+	cs := consensus.State{Network: n, Index: types.ChainIndex{Height: 5}}
+	cs.ChildTarget = types.BlockID{0xFF}
+	return cs
+}
+
+// validateDecoded runs the validation entry points on a value produced by a text decoder, if it is a transaction
+// or a block. Verdicts do not matter here (nothing in the state exists), only that every call returns.
+func validateDecoded(test string, val any, n int) (bool, callResult) {
+	cs := decodedState()
+	var f func()
+	switch v := val.(type) {
+	case types.V2Transaction:
+		f = func() {
+			_ = consensus.ValidateV2Transaction(consensus.NewMidState(cs), v)
+			_ = cs.Elements.ValidateTransactionElements(v)
+			b := types.Block{ParentID: cs.Index.ID, MinerPayouts: []types.SiacoinOutput{{Value: cs.BlockReward()}}, V2: &types.V2BlockData{Height: 6, Transactions: []types.V2Transaction{v}}}
+			_ = consensus.ValidateOrphan(cs, b)
+			_ = consensus.ValidateBlock(cs, b, consensus.V1BlockSupplement{})
+		}
+	case types.Transaction:
+		f = func() {
+			_ = consensus.ValidateTransaction(consensus.NewMidState(cs), v, consensus.V1TransactionSupplement{})
+			b := types.Block{ParentID: cs.Index.ID, MinerPayouts: []types.SiacoinOutput{{Value: cs.BlockReward()}}, Transactions: []types.Transaction{v}}
+			_ = consensus.ValidateOrphan(cs, b)
+			_ = consensus.ValidateBlock(cs, b, consensus.V1BlockSupplement{Transactions: make([]consensus.V1TransactionSupplement, 1)})
+		}
+	case types.Block:
+		f = func() {
+			_ = consensus.ValidateOrphan(cs, v)
+			_ = consensus.ValidateHeader(cs, v.Header())
+			_ = consensus.ValidateBlock(cs, v, consensus.V1BlockSupplement{Transactions: make([]consensus.V1TransactionSupplement, len(v.Transactions))})
+		}
+	case types.V2BlockData:
+		f = func() {
+			b := types.Block{ParentID: cs.Index.ID, MinerPayouts: []types.SiacoinOutput{{Value: cs.BlockReward()}}, V2: &v}
+			_ = consensus.ValidateOrphan(cs, b)
+			_ = consensus.ValidateBlock(cs, b, consensus.V1BlockSupplement{})
+		}
+	default:
+		return false, callResult{}
+	}
+	return true, guarded(test, n, 64<<20, f)
+}
